@@ -20,8 +20,8 @@ from vf import gen as G
 
 PROPERTY = "C08"
 TECHNIQUE = "runtime monitoring; metamorphic oracle on pairs of real potential builds (roll / tile / slice-mean relations)"
-RULE = ("random orthogonal cells 3-8 A with 1-12 atoms of mixed Z, positions anywhere (outside the cell, on cell faces, on pixel "
-        "boundaries and pixel centres), grids 7-40 odd/even/rectangular, lobato/kirkland/peng, infinite and finite projection, "
+RULE = ("random orthogonal cells 3-8 A with 1-12 atoms of mixed Z, positions anywhere (outside the cell, on cell faces incl. tiny negative rounding "
+        "artefacts, on pixel boundaries and pixel centres), grids 7-40 odd/even/rectangular, lobato/kirkland/peng, infinite and finite projection, "
         "slice thickness scalar or sequence, pixel shifts in [-2n, 2n] incl. 0-row/0-column and more than a cell, repetitions "
         "(1-3, 1-3, 1-2), real sub-pixel translations, eager and lazy, float64 and float32; non-trivial = the translation is not "
         "a multiple of the cell (shift), some repetition > 1 (tile), a non-integer pixel translation (subpixel); distinct = "
@@ -60,8 +60,8 @@ def _atoms_case(rng, gpts, cell, n, elements):
                 p[d] = float(int(rng.integers(0, gpts[d] + 1)) * dx[d])
             elif r < 0.26:    # exactly on a pixel centre line
                 p[d] = float((int(rng.integers(0, gpts[d])) + 0.5) * dx[d])
-            elif r < 0.3:     # cell faces
-                p[d] = float(rng.choice([0.0, cell[d], -0.0]))
+            elif r < 0.3:     # cell faces, incl. the tiny negative values rotations / surface builders leave behind
+                p[d] = float(rng.choice([0.0, cell[d], -0.0, -1e-17, -6e-17, -1e-13]))
         pos.append([float(v) for v in p])
     return {"cell": [float(c) for c in cell], "symbols": [str(rng.choice(elements)) for _ in range(n)], "positions": pos}
 
